@@ -291,6 +291,9 @@ def shard(ctx):
             check_string(ctx, s)
             if n <= 5:
                 check_string(ctx, s, '#')
+                # separators of more than one character
+                check_string(ctx, s, '##')
+                check_string(ctx, s, '-#')
             total += 1
     ctx.stratum('sweep strings', total)
     if ctx.shard == 0:
